@@ -283,6 +283,8 @@ def drop_other_comm(log):
         mr = rx.search(line)
         if mr and int(mr.group(1)) in inq:
             sp = line.split(" ", 2)
+            if len(sp) < 2:
+                continue                     # a line cut short by a crashing run
             d = C.kv(sp[2]) if len(sp) > 2 else {}
             if sp[1] in ("isend", "irecv", "iallreduce") and "comm" in d:
                 comms.add(d["comm"])
@@ -294,6 +296,8 @@ def drop_other_comm(log):
     for line in keep:
         if not _H.match(line):
             sp = line.split(" ", 2)
+            if len(sp) < 2:
+                continue                     # a line cut short by a crashing run
             d = C.kv(sp[2]) if len(sp) > 2 else {}
             if d.get("comm") in comms or (sp[1] == "deliver" and d.get("msg") in msgs):
                 continue
